@@ -118,6 +118,12 @@ where
                             }
                             Err((mut event, err)) => {
                                 event.ingest = ProcessorStatus::Failed(err);
+
+                                // The prune arguments were derived from a header which did not
+                                // pass validation (for example a forged signature claiming another
+                                // author). Never prune anything on behalf of such an operation.
+                                event.skip_log_prune();
+
                                 event
                             }
                         })
